@@ -103,7 +103,34 @@ def run(name):
     return res
 
 
+def run_patch(patch, props):
+    """apply a patch file (git diff of include/...) to the scratch tree and run the given checks"""
+    r = sh('patch -p1 -d %s < %s' % (SCR_REPO, patch))
+    if r.returncode != 0:
+        print('patch does not apply:\n' + r.stdout); return None
+    res = {}
+    for p in props:
+        t0 = time.time()
+        r = sh('VERIF_REPO=%s python3 %s/check.py %s --tier quick' % (SCR_REPO, SCR_VERIF, p))
+        lines = re.findall(r'^VIOLATION.*', r.stdout, re.M)
+        res[p] = {'rc': r.returncode, 'violations': len(lines), 'first': [l[:260] for l in lines[:3]], 's': round(time.time() - t0), 'tail': r.stdout.strip().split('\n')[-1][:300]}
+        print('%-40s %s rc=%d violation-lines=%d (%ds)' % (os.path.basename(os.path.dirname(patch)), p, r.returncode, len(lines), time.time() - t0))
+        for l in lines[:2]: print('      ' + l[60:260])
+        if r.returncode == 2: print(r.stdout[-600:])
+    sh('patch -R -p1 -d %s < %s' % (SCR_REPO, patch))
+    return res
+
+
 if __name__ == '__main__':
+    if '--patch' in sys.argv:
+        i = sys.argv.index('--patch'); patch = sys.argv[i + 1]; props = sys.argv[i + 2:]
+        setup()
+        try:
+            out = run_patch(patch, props)
+        finally:
+            teardown()
+        json.dump(out, open(os.path.join(os.path.dirname(patch), 'verif_result.json'), 'w'), indent=1)
+        sys.exit(0)
     if '--list' in sys.argv:
         for m in M: print(m[0], m[4])
         sys.exit(0)
